@@ -912,6 +912,18 @@ rt_prop("C12", ["malformed", "bridge"],
         "request never panics in the model (outstanding_never_panics); the wire decoders read a bounded prefix (decode_bounded). "
         "Panics / hangs of the real code are bounded empirically: every case runs under catch_unwind; malformed bytes (truncations, "
         "extensions, bit flips, random, empty, JSON fragments) are injected at every position of generated histories.")
+def _add_c12_codec_stream():
+    def gen(tier, seed):
+        return [["gen", seed + 7, 8000 if tier == "quick" else 60000]]
+    PROPS["C12"]["streams"].append(Stream("codec", "codec", "codec", gen, nontrivial=codec_nontrivial, shape=codec_shape))
+    PROPS["C12"]["rule"] += ("; codec stream: schema-derived encodings of the events and HTTP results of a typed app and mutations of "
+                             "them (truncated, extended, bit flips, 8-byte windows overwritten with boundary lengths up to 2^63 and "
+                             "u64::MAX) offered to the REAL entry points of the bincode bridge — Bridge::process_event, and "
+                             "Bridge::handle_response to an outstanding request — under catch_unwind: the bridge must accept exactly "
+                             "what the decoder of the type accepts (model M.Codec) and never panic (key *-bridge-entry-*)")
+
+
+_add_c12_codec_stream()
 rt_prop("C13", ["bridge", "core", "cancel"],
         "Proof (Props/C13.lean): finished/cancelled tasks free their slab slot (finished_task_slot_freed), completed executor tasks "
         "free theirs (completed_exec_task_freed), an aborted command holds no task once looked at "
@@ -1261,7 +1273,7 @@ ENGINE_TEXT = {
     "kv": "real crux_kv calls (capability + command API; Core and bincode Bridge hosts) vs M.Kv (Lean), oracle S.Kv",
     "conv": "differential driver for crux_time::protocol conversions (Rust) vs M.Conv (Lean), oracle S.Conv",
 }
-HOOK_COMMITS = ["3b3ccf0", "fd94595", "1055c0e", "261bd7a", "aabe6ae", "aa30ac4"]
+HOOK_COMMITS = ["3b3ccf0", "fd94595", "1055c0e", "261bd7a", "aabe6ae", "aa30ac4", "df0e2e7"]
 
 # Only these are listed in MANIFEST.json as claimed (the lead adds an id here once its check has been reviewed and passes).
 CLAIMED = ["C%02d" % i for i in range(1, 21)]
